@@ -208,6 +208,10 @@ def run(ctx):
     rule_entry_points_total(ctx)
     rule_simple_types(ctx)
     rule_loops_finite(ctx)
+    # R3.5: resolution_scope indexes the top of the scope stack: a pop that was never pushed empties it and the next $ref raises
+    # IndexError (the kind interpreter does not model the stack depth; the typestate pairing analysis does)
+    from . import scope
+    scope.rule_pairing(ctx, "R3.5")
     un = set()
     for I in ctx.extra.get("_interp_cache", {}).values():
         un |= set(I.unmodelled)
